@@ -37,6 +37,9 @@
 (*                    channel's key with the dialled identity              *)
 (*     "noproof"      a presented key is accepted without proof            *)
 (*     "wlin"         inbound admission does not consult the whitelist     *)
+(*     "firstloadable" quicswarm takes the first certificate of the peer's *)
+(*                    chain whose key its registry can load instead of the *)
+(*                    leaf (the only certificate TLS proves)               *)
 (***************************************************************************)
 EXTENDS Integers, Sequences, FiniteSets, TLC, SSHAuth
 
@@ -47,12 +50,17 @@ CONSTANTS
     MaxConn,    \* connections per behaviour
     MaxSend,    \* Tell / Ask calls per behaviour (honest and adversarial)
     MaxAdv,     \* adversarial authentication steps per behaviour
+    Extras,     \* keys M may put into an additional, unproven certificate ({}: single-certificate chains only)
     Asks        \* {FALSE}: Tell only; {FALSE, TRUE}: Tell and Ask (the model treats them alike, the replayer does not)
 
 Nodes  == {"A", "B", "M"}
 Honest == {"A", "B"}
-Holds(n) == {n}          \* node n holds the private half of key n and of no other key
-
+\* Keys are named after their holder.  M has a second key pair of its own, "Me": an ECDSA key, i.e. of an
+\* algorithm the swarms' default registry (Ed25519 only) cannot load.  Every node's main key is Ed25519.
+Keys == Nodes \cup {"Me"}
+Holds(n) == IF n = "M" THEN {"M", "Me"} ELSE {n}     \* nobody holds the private half of anybody else's key
+Loadable(k) == k # "Me"
+KeyNode(k) == IF k = "Me" THEN "M" ELSE k
 VARIABLES
     kind,       \* swarm kind of this behaviour
     wl,         \* [Honest -> SUBSET Nodes]: identities each honest node's whitelist admits
@@ -65,11 +73,24 @@ VARIABLES
 
 vars == <<kind, wl, conns, sends, dlv, saw, mpol, adv>>
 
+\* whitelists are predicates on identities; one that admits node M admits both of M's identities
+InWL(k, n) == KeyNode(k) \in wl[n]
+
+(* CREDENTIAL PRESENTATION of a certificate-based transport (quicswarm): a TLS peer sends a certificate CHAIN.  *)
+(* With InsecureSkipVerify + RequireAnyClientCert only the LEAF's private key is proven (CertificateVerify);     *)
+(* every further certificate is data the peer chose.  claimX is the leaf's key, extraX the key inside one        *)
+(* additional, unproven certificate ("-": none).  The code must record the leaf's key or nobody's.               *)
+RecOf(leaf, extra) ==
+    IF kind = "quic" /\ "firstloadable" \in Weak
+    THEN IF Loadable(leaf) THEN leaf ELSE extra
+    ELSE leaf
+
 Fixed == "sshlast" \notin Weak
 
 NewConn(d, a, x) ==
     [d |-> d, a |-> a, want |-> x,
      ans |-> FALSE, claimA |-> "-", usedA |-> "-",      \* answerer's presentation
+     extraA |-> "-", extraD |-> "-",                    \* unproven extra certificate of the answerer / dialler
      dst |-> "hs", recD |-> "-",                        \* dialler's side: hs | open | fail | gone
      pres |-> FALSE, claimD |-> "-", usedD |-> "-",     \* dialler's presentation
      held |-> FALSE,                                    \* M sent the first half of a handshake and withholds the rest
@@ -79,7 +100,7 @@ NewConn(d, a, x) ==
 Init == /\ kind \in Kinds
         /\ wl \in [Honest -> SUBSET Nodes] /\ wl["A"] \in WLA /\ wl["B"] \in WLB
         /\ conns = <<>> /\ sends = <<>> /\ dlv = {} /\ saw = {}
-        /\ mpol = [k |-> "M", proof |-> "own"]
+        /\ mpol = [k |-> "M", proof |-> "own", extra |-> "-"]
         /\ adv = 0
 
 CIdx == 1..Len(conns)
@@ -196,7 +217,11 @@ Answer(c) ==
     /\ LET a == conns[c].a IN
        conns' = [conns EXCEPT ![c].ans = TRUE,
                    ![c].claimA = IF a \in Honest THEN a ELSE mpol.k,
-                   ![c].usedA  = IF a \in Honest THEN a ELSE IF mpol.proof \in {"own", "data"} THEN "M" ELSE "none"]
+                   ![c].extraA = IF a \in Honest THEN "-" ELSE mpol.extra,
+                   \* M signs with the presented key if it is one of its own, otherwise with its main key
+                   ![c].usedA  = IF a \in Honest THEN a
+                                 ELSE IF mpol.proof \notin {"own", "data"} THEN "none"
+                                 ELSE IF mpol.k \in Holds("M") THEN mpol.k ELSE "M"]
     /\ UNCHANGED <<kind, wl, sends, dlv, saw, mpol, adv>>
 
 \* the dialler verifies the proof and compares the proven identity with the dialled one
@@ -206,13 +231,14 @@ DialerCheck(c) ==
     /\ CanDialerCheck(c)
     /\ LET r     == conns[c]
            valid == (r.usedA = r.claimA) \/ "noproof" \in Weak
-           idok  == (r.claimA = r.want) \/ "nodialcheck" \in Weak
-           ok    == valid /\ idok
+           rec   == RecOf(r.claimA, r.extraA)       \* quicswarm.go remoteAddrFromSession: PeerCertificates[0]
+           idok  == (rec = r.want) \/ "nodialcheck" \in Weak
+           ok    == valid /\ idok /\ rec # "-"
            \* TLS completes (client certificate sent) before quicswarm compares identities; P2PKE sends
            \* InitDone and SSH starts user authentication only after the check
            pr    == IF kind = "quic" THEN valid ELSE ok IN
        conns' = [conns EXCEPT ![c].dst = IF ok THEN "open" ELSE "fail",
-                               ![c].recD = IF ok THEN r.claimA ELSE "-",
+                               ![c].recD = IF ok THEN rec ELSE "-",
                                ![c].pres = pr,
                                ![c].claimD = IF pr THEN r.d ELSE "-",
                                ![c].usedD = IF pr THEN r.d ELSE "-"]
@@ -226,10 +252,11 @@ Accept(c) ==
     /\ CanAccept(c)
     /\ LET r     == conns[c]
            valid == (r.usedD = r.claimD) \/ "noproof" \in Weak
-           wlok  == kind = "ssh" \/ r.claimD \in wl[r.a] \/ "wlin" \in Weak
+           crec  == RecOf(r.claimD, r.extraD)
+           wlok  == kind = "ssh" \/ InWL(crec, r.a) \/ "wlin" \in Weak
            au2   == Signed(Query(NoAuth, r.d), r.d, Holds(r.d))     \* ssh.PublicKeys(signer): query, then sign
-           ok    == valid /\ wlok /\ (kind = "ssh" => au2.st = "ok")
-           rec   == IF kind = "ssh" THEN Recorded(au2, Fixed) ELSE r.claimD IN
+           ok    == valid /\ wlok /\ (kind = "ssh" => au2.st = "ok") /\ crec # "-"
+           rec   == IF kind = "ssh" THEN Recorded(au2, Fixed) ELSE crec IN
        conns' = [conns EXCEPT ![c].ast = IF ok THEN "open" ELSE "fail",
                                ![c].recA = IF ok THEN rec ELSE "-",
                                ![c].au = IF kind = "ssh" THEN au2 ELSE @]
@@ -265,7 +292,7 @@ Timeout(i) ==
 
 \* whitelist consulted when a message is handed up
 \* (p2pkeswarm handleMessage / quicswarm handleTells, handleAsks after the repair of F35; wlswarm Receive/ServeAsk)
-DeliveryGate(r, src) == (kind # "ssh" /\ "wlout" \in Weak) \/ src \in wl[r]
+DeliveryGate(r, src) == (kind # "ssh" /\ "wlout" \in Weak) \/ InWL(src, r)
 
 (* DeliverUp: the receiving side computes Src.ID from the key its code recorded and calls the handler *)
 CanDeliverUp(i) == sends[i].st = "wire" /\ ~HsBusy(sends[i].c)
@@ -298,13 +325,16 @@ LookupInHandler(dl) ==
 \* choose what to present to whoever dials M's transport address
 \* proof "data" (P2PKE only): M signs its RespHello with its own key but never sends RespDone - application data
 \* of M is what completes the dialler's handshake (the situation of finding F21)
-MListen(k, proof) ==
+MListenX(k, proof, extra) ==
     /\ adv < MaxAdv /\ adv' = adv + 1
     /\ proof = "data" => kind = "p2pke"
+    /\ (k = "Me" \/ extra # "-") => kind = "quic"
     /\ \A c \in CIdx : conns[c].a = "M" => conns[c].ans
-    /\ mpol # [k |-> k, proof |-> proof]
-    /\ mpol' = [k |-> k, proof |-> proof]
+    /\ mpol # [k |-> k, proof |-> proof, extra |-> extra]
+    /\ mpol' = [k |-> k, proof |-> proof, extra |-> extra]
     /\ UNCHANGED <<kind, wl, conns, sends, dlv, saw>>
+
+MListen(k, proof) == MListenX(k, proof, "-")
 
 MDial(t) ==
     /\ t \in Honest /\ Len(conns) < MaxConn
@@ -317,14 +347,17 @@ Captured(k) == k \in Honest /\ \E c \in CIdx : conns[c].d = k /\ conns[c].a = "M
 Proofs(k) == {"own", "none"} \cup (IF kind = "p2pke" /\ Captured(k) THEN {"splice"} ELSE {})
 
 \* one complete handshake attempt as dialler presenting key k (P2PKE InitHello + InitDone; TLS client certificate)
-MPresent(c, k, proof) ==
+MPresentX(c, k, proof, extra) ==
     /\ kind # "ssh" /\ c \in CIdx /\ conns[c].d = "M" /\ conns[c].ast \in {"idle", "fail"} /\ ~conns[c].held
     /\ proof \in Proofs(k)
+    /\ (k = "Me" \/ extra # "-") => kind = "quic"
     /\ adv < MaxAdv /\ adv' = adv + 1
-    /\ conns' = [conns EXCEPT ![c].pres = TRUE, ![c].claimD = k,
-                               ![c].usedD = IF proof = "own" THEN "M" ELSE "none",
+    /\ conns' = [conns EXCEPT ![c].pres = TRUE, ![c].claimD = k, ![c].extraD = extra,
+                               ![c].usedD = IF proof # "own" THEN "none" ELSE IF k \in Holds("M") THEN k ELSE "M",
                                ![c].ast = "idle"]
     /\ UNCHANGED <<kind, wl, sends, dlv, saw, mpol>>
+
+MPresent(c, k, proof) == MPresentX(c, k, proof, "-")
 
 \* P2PKE only: the two halves of a handshake attempt, so that the rest of the world can act in between.
 \* MHello: M's InitHello reaches the honest node: a channel for M's transport address now exists there and a
@@ -381,6 +414,9 @@ External ==
     \/ \E k \in Nodes, proof \in {"own", "none", "data"} : MListen(k, proof)
     \/ \E t \in Honest : MDial(t)
     \/ \E c \in CIdx, k \in Nodes, proof \in {"own", "none", "splice"} : MPresent(c, k, proof)
+    \/ Extras # {} /\ \E k \in Keys, proof \in {"own", "none"}, extra \in Extras \cup {"-"} :
+            \/ (k = "Me" \/ extra # "-") /\ MListenX(k, proof, extra)
+            \/ \E c \in CIdx : (k = "Me" \/ extra # "-") /\ MPresentX(c, k, proof, extra)
     \/ \E c \in CIdx, k \in Nodes : MQuery(c, k) \/ MSigned(c, k)
     \/ \E c \in CIdx, k \in Nodes, proof \in {"own", "none", "splice"} : MHello(c, k, proof)
     \/ \E c \in CIdx : MFinish(c)
@@ -421,7 +457,7 @@ DialSafety ==
     /\ \A w \in saw : w.x \in Holds("M")
 
 \* nothing from a peer the whitelist rejects is handed up
-Whitelist == \A dl \in dlv : Used(dl.c, dl.from) \in wl[dl.at]
+Whitelist == \A dl \in dlv : InWL(Used(dl.c, dl.from), dl.at)
 
 C04 == Attribution /\ DialSafety /\ Whitelist
 
